@@ -3,6 +3,7 @@ package sim
 import (
 	"context"
 	"fmt"
+	"github.com/yorkie-team/yorkie/pkg/attachable"
 	"math/rand/v2"
 	"sort"
 	"strings"
@@ -82,6 +83,11 @@ func (m *conservationMonitor) AfterStep(rc *RunCtx, i int, st *Step, res *StepRe
 	switch st.Op {
 	case "update":
 		if res.Out != "ok" {
+			return nil
+		}
+		if sd := rc.W.Client(st.C).Docs[st.D]; sd == nil || sd.Doc.Status() != attachable.StatusAttached {
+			// an edit on a document that is not attached (a minimised trace may have lost the
+			// attach in front of it) goes nowhere by design
 			return nil
 		}
 		for _, e := range st.Edits {
